@@ -268,6 +268,11 @@ def run_shard(sh, ctx):
 				o = env.out(); expect_error(ctx, 'dist -p without -k', 'incomplete', ['dist', '-o', o, '--no-progress', '-p', A[1]] + qopts['files'] + ropts['files'], o, w)
 				o = env.out('gs'); expect_error(ctx, 'signatures create --db-params + -k/-p', 'exclusive', ['-d', dbA, 'signatures', 'create', '-o', o, '--no-progress', '--db-params'] + kopts(A) + qfiles, o, w)
 				o = env.out('gs'); expect_error(ctx, 'signatures create -k without -p', 'incomplete', ['signatures', 'create', '-o', o, '--no-progress', '-k', A[0]] + qfiles, o, w)
+				# explicit options whose VALUE is zero / empty are still explicit: they match no signature file, and half a pair is still half a pair
+				for cls_, opts in (('dist -k 0 -p "" + --qs --rs', ['-k', 0, '-p', '']), ('dist -k 0 alone + --qs --rs', ['-k', 0]), ('dist -p "" alone + --qs --rs', ['-p', ''])):
+					o = env.out(); expect_error(ctx, cls_, 'explicit-but-falsy', ['dist', '-o', o, '--no-progress'] + opts + ['--qs', qA, '--rs', rA], o, w)
+					o = env.out(); expect_error(ctx, cls_.replace('--rs', '--use-db'), 'explicit-but-falsy', ['-d', dbA, 'dist', '-o', o, '--no-progress'] + opts + ['--qs', qA, '--use-db'], o, w)
+				o = env.out('gs'); expect_error(ctx, 'signatures create -k 0 -p ""', 'explicit-but-falsy', ['signatures', 'create', '-o', o, '--no-progress', '-k', 0, '-p', ''] + qfiles, o, w)
 			# ---- positive controls: every combination with matching or inferred parameters -------------------------
 			if not mism:
 				Bq, Br = qB, rB      # B equals A (possibly different prefix case)
@@ -326,7 +331,7 @@ def run_shard(sh, ctx):
 def finalize(merged, tier, seed, inconclusive):
 	c = merged['counters']
 	need = ['mismatch:query -s', 'mismatch:dist -k/-p == --qs, --rs differs', 'mismatch:dist -k/-p == --qs, --use-db differs', 'mismatch:dist --qs --rs', 'mismatch:dist --qs --use-db', 'mismatch:dist -k/-p + --qs / ref files', 'mismatch:dist -k/-p + --rs / query listfile',
-	        'mismatch:dist -k without -p', 'mismatch:signatures create --db-params + -k/-p', 'relation:k-differs', 'relation:prefix-differs', 'relation:both-differ', 'relation:other-side-is-the-default', 'relation:prefix-is-reverse-complement',
+	        'mismatch:dist -k without -p', 'mismatch:signatures create --db-params + -k/-p', 'relation:k-differs', 'relation:prefix-differs', 'relation:both-differ', 'relation:other-side-is-the-default', 'relation:prefix-is-reverse-complement', 'relation:explicit-but-falsy',
 	        'control:dist --qs --rs', 'control:dist query files + --use-db (inferred)', 'control:query files', 'control:signatures create --db-params', 'control:tree -s', 'api_parse_calls:shared-dict', 'api_parse_database_switches']
 	for n in need:
 		if c.get(n, 0) == 0:
